@@ -522,7 +522,9 @@ def check_extract(R, refs, sched, start_pos, since=False):
             problems.append("extract(thread) reported a frame of the impostor thread that reused the ident: %s" % f.funcname)
         elif f.pyframe not in allowed:
             # frames created before profiling started: threading bootstrap
-            if f.pyframe.f_code.co_name in ("_bootstrap", "_bootstrap_inner", "run", "body"):
+            if f.pyframe.f_code.co_name in ("_bootstrap", "_bootstrap_inner", "run", "body", "prof"):
+                # bootstrap frames predate profiling; `prof` is the harness's own profile callback, which runs on the
+                # target thread (it may still be handling the c_call event of the gate's acquire when we look)
                 continue
             problems.append("frame %s (%s) does not belong to the target thread" % (f.funcname, f.filename))
     outcome = "frames=%d" % len(st.frames)
